@@ -85,3 +85,31 @@ Fixpoint armed_after (a : bool) (l : list ev) : bool :=
   | EClear :: r => armed_after false r
   | _ :: r => armed_after a r
   end.
+
+(* timed traces: the events up to and including the first route run at depth d *)
+Fixpoint until_run (d : nat) (X : list (Z * ev)) : list (Z * ev) :=
+  match X with
+  | [] => []
+  | te :: r => if is_run d (snd te) then [te] else te :: until_run d r
+  end.
+Definition has_run_at (d : nat) (X : list (Z * ev)) : bool := existsb (fun te => is_run d (snd te)) X.
+(* what an invocation appended to the timed trace *)
+Definition own_tr {net} (s : st net) (r : res net) : list (Z * ev) := skipn (length (tr s)) (tr (res_st r)).
+
+(* ---- deadline state and drops along a trace (C05) ---- *)
+Definition is_hev (e : ev) : bool := match e with ERun _ _ _ | EFallback _ _ => true | _ => false end.
+Definition is_anydrop (e : ev) : bool := match e with EDrop _ _ => true | _ => false end.
+Definition armed_step (a : bool) (e : ev) : bool := match e with EArm => true | EClear => false | _ => a end.
+(* every route run / fallback call in l happens with the deadline cleared (a: deadline state before l) *)
+Fixpoint hu (a : bool) (l : list ev) : Prop :=
+  match l with
+  | [] => True
+  | e :: r => (is_hev e = true -> a = false) /\ hu (armed_step a e) r
+  end.
+(* a drop can only be the last event *)
+Fixpoint drop_last (l : list ev) : Prop :=
+  match l with
+  | [] => True
+  | e :: r => (is_anydrop e = true -> r = []) /\ drop_last r
+  end.
+Definition nodrops (l : list ev) : Prop := forall e, In e l -> is_anydrop e = false.
